@@ -197,10 +197,15 @@ func c07a(c *Ctx) {
 		isCode := func(in ssa.Instruction) bool {
 			for _, b := range bcs {
 				if b.call == in && b.sb == outSb && b.method == "WriteString" {
-					if s, ok := strConst(b.arg); ok && (s == `\n` || s == `\l`) {
-						return true
+					// a break code: constant \n / \l, the (break) word, or a helper that returns only those
+					alts := c.stringAlts(fn, b.arg, 0)
+					all := len(alts) > 0
+					for _, a := range alts {
+						if !(a.konst && (a.text == `\n` || a.text == `\l`)) && !(!a.konst && a.term == c.term(fn, wordPhi)) {
+							all = false
+						}
 					}
-					if b.arg == ssa.Value(wordPhi) {
+					if all {
 						return true
 					}
 				}
@@ -242,10 +247,22 @@ func c07a(c *Ctx) {
 			ok := b.arg == ssa.Value(wordPhi) || (b.method == "WriteByte" && at == "32")
 			c.Check(ok, key+"/line", pos, "the line receives only the word or a single space", "the current line receives "+pretty(at)+", expected the word or a space")
 		case b.sb == outSb:
-			s, isC := strConst(b.arg)
-			ok := isFlush(b.call) || b.arg == ssa.Value(wordPhi) || (isC && (s == `\n` || s == `\l`)) || (b.method == "WriteByte" && at == "10")
+			ok := isFlush(b.call) || (b.method == "WriteByte" && at == "10")
+			writesWord := false
+			if !ok && b.method == "WriteString" {
+				ok = true
+				for _, a := range c.stringAlts(fn, b.arg, 0) {
+					switch {
+					case a.konst && (a.text == `\n` || a.text == `\l`):
+					case !a.konst && a.term == c.term(fn, wordPhi):
+						writesWord = true
+					default:
+						ok = false
+					}
+				}
+			}
 			c.Check(ok, key+"/output", pos, "the output receives only line content, break codes and newline bytes", "the output receives "+pretty(at)+", expected the line content, a break code or the newline byte")
-			if b.arg == ssa.Value(wordPhi) {
+			if writesWord {
 				c.Check(hasLit(c.mustLits(fn, b.call.Block()), "+"+isBreakLit), key+"/explicit-break", pos, "only an explicit break word is copied to the output directly", "a word that is not a line break is written straight to the output")
 			}
 		default:
